@@ -21,6 +21,9 @@ fn usage() -> ! {
     std::process::exit(2);
 }
 
+/// CPU seconds one monitored call may consume before it is reported as not terminating.
+const GENERIC_CPU_BUDGET_S: u64 = 120;
+
 fn main() {
     let args: Vec<String> = std::env::args().collect();
     if args.len() < 3 {
@@ -101,6 +104,16 @@ fn main() {
                 p, limit
             );
             std::process::exit(2);
+        });
+    }
+
+    // Termination monitor for every property: a single monitored call into the library that
+    // burns more than the budget of *CPU time* (not wall time) is reported as not terminating.
+    // C04 and C06 start their own, with tighter budgets and the input bytes as witness.
+    if prop != "C04" && prop != "C06" {
+        let (p, t, sd) = (prop.clone(), tier, seed);
+        mon::start_cpu_watchdog(GENERIC_CPU_BUDGET_S, move |op, family, input, cpu| {
+            ev::report_stuck_and_exit(&p, t, sd, op, family, input, cpu, GENERIC_CPU_BUDGET_S)
         });
     }
 
